@@ -2,7 +2,8 @@
 //! every judgement is made by TLC over spec/LZ.tla (Trace_LZ) or by comparing with what TLC printed (Gen_LZ).
 //!
 //!   inputs  <lz10|lz13> <cases.ndjson>        input families for C08/C09 (exhaustive small + structured, seeded)
-//!   comp    <cases> <out> [--from k]          isolated: compress + own decompress, one "comp" event per case
+//!   comp    <cases> <out> [--from k]          isolated: compress + own decompress, one "comp" event per case; the public entry
+//!                                             point is chosen by VERIF_LZ_VIA = direct (LZ10/LZ13CompressionFormat) | enum (CompressionFormat::LZ10/LZ13)
 //!   size    <out.ndjson>                      C10: sizes of compressed periodic / small inputs ("size" events)
 //!   sizeone <fmt> <p> <pk> <n> <out.ndjson>   C10: one periodic size event again (replay)
 //!   deccmp  <cases> <out> [--from k]          isolated: C11 spec->impl, decompress TLC's streams, compare with TLC's verdict
@@ -26,7 +27,9 @@ fn compress(fmt: &str, input: &[u8]) -> Result<Result<Vec<u8>, String>, String> 
     catch(|| match fmt {
         "lz10" => LZ10CompressionFormat {}.compress(input).map_err(|e| e.to_string()),
         "lz13" => LZ13CompressionFormat {}.compress(input).map_err(|e| e.to_string()),
-        _ => usage("fmt: lz10|lz13"),
+        "cf10" => CompressionFormat::LZ10(LZ10CompressionFormat {}).compress(input).map_err(|e| e.to_string()),
+        "cf13" => CompressionFormat::LZ13(LZ13CompressionFormat {}).compress(input).map_err(|e| e.to_string()),
+        _ => usage("fmt: lz10|lz13|cf10|cf13"),
     })
 }
 
@@ -250,16 +253,24 @@ fn cmd_inputs(fmt: &str, path: &str) {
 // ------------------------------------------------------------------------------------------------ C08 / C09
 fn cmd_comp(cases_path: &str, out_path: &str, from: usize) {
     let cases = read_ndjson(cases_path);
+    let via = std::env::var("VERIF_LZ_VIA").unwrap_or_else(|_| "direct".to_string());
     run_isolated(&cases, from, out_path, |_, c| {
         let fmt = c["fmt"].as_str().unwrap();
+        // entry point for both compress and the own decompression of its result
+        let entry = match (via.as_str(), fmt) {
+            ("direct", f) => f,
+            ("enum", "lz10") => "cf10",
+            ("enum", "lz13") => "cf13",
+            _ => usage("VERIF_LZ_VIA: direct|enum"),
+        };
         if c.get("pat").is_some() {
             // input given by its generator: the event carries (pat, n), the whole stream, and whether mila's own
             // decompression of it returned the input (compared here: the input is not listed)
             let pat = json_to_bytes(&c["pat"]);
             let input = periodic(&pat, c["n"].as_u64().unwrap() as usize);
-            let r = compress(fmt, &input);
+            let r = compress(entry, &input);
             let rt = match &r {
-                Ok(Ok(s)) => match decompress(fmt, s) {
+                Ok(Ok(s)) => match decompress(entry, s) {
                     Ok(Ok(x)) => json!({"kind": "ok", "same": x == input, "len": x.len(), "msg": ""}),
                     Ok(Err(e)) => json!({"kind": "err", "same": false, "len": 0, "msg": e}),
                     Err(p) => json!({"kind": "panic", "same": false, "len": 0, "msg": p}),
@@ -269,9 +280,9 @@ fn cmd_comp(cases_path: &str, out_path: &str, from: usize) {
             return json!({"kind": "bigcomp", "fmt": fmt, "tag": c["tag"], "pat": c["pat"], "n": c["n"], "res": res_json(r), "rt": rt});
         }
         let input = json_to_bytes(&c["input"]);
-        let r = compress(fmt, &input);
+        let r = compress(entry, &input);
         let rt = match &r {
-            Ok(Ok(s)) => res_json(decompress(fmt, s)),
+            Ok(Ok(s)) => res_json(decompress(entry, s)),
             _ => json!({"kind": "none", "out": [], "alloc": false, "msg": ""}),
         };
         json!({"kind": "comp", "fmt": fmt, "tag": c["tag"], "input": c["input"], "res": res_json(r), "rt": rt})
